@@ -188,6 +188,19 @@ func edgeBlock(iff *ssa.If, val bool) (b *ssa.BasicBlock, exclusive bool) {
 func stripNot(v ssa.Value) (ssa.Value, bool) {
 	neg := false
 	for {
+		if b, ok := v.(*ssa.BinOp); ok && (b.Op == token.EQL || b.Op == token.NEQ) {
+			// x == true, x != false, x == false, x != true
+			if c, isC := ssau.ConstBool(b.Y); isC {
+				v = b.X
+				neg = neg != (c != (b.Op == token.EQL))
+				continue
+			}
+			if c, isC := ssau.ConstBool(b.X); isC {
+				v = b.Y
+				neg = neg != (c != (b.Op == token.EQL))
+				continue
+			}
+		}
 		u, ok := v.(*ssa.UnOp)
 		if !ok || u.Op != token.NOT {
 			return v, neg
